@@ -52,6 +52,10 @@ def main(argv):
     t0 = time.time()
     res = drv.run(tier, seed)
     res["wall_s"] = round(time.time() - t0, 2)
+    cc = sys.modules.get("bounded.cooc_common")
+    if cc is not None and getattr(cc, "TIES_EXCLUDED", None):
+        res.setdefault("notes", []).append("%d generated cases excluded from the comparison because a variable window radius or a thresholded entry sits "
+                                           "on a rounding boundary (float precision, not the definition, decides those)" % len(cc.TIES_EXCLUDED))
     if out:
         json.dump(res, open(out, "w"), default=str)
     else:
